@@ -528,6 +528,30 @@ fn script_json(s: &Script) -> Value {
 struct Shared {
     /// distinct (bytes of the PDU already written when the transport went Pending, script position)
     writing_states: Mutex<BTreeSet<(u32, usize, usize)>>,
+    /// recorded streams handed to the independent Python oracle (oracles/pdata_stream.py)
+    dump: Mutex<Vec<String>>,
+}
+
+const DUMP_CAP: usize = 4000;
+
+/// Hand a failure-free execution over to the Python oracle (small cases only).
+fn dump_for_python(sh: &Shared, kind: Kind, run: &WRun, payload: &[u8], m: u32, ctx: u8, verdict: &[(String, String)]) {
+    if payload.len() > 6000 || run.rec.len() > 8000 || run.failures > 0 || run.panic.is_some() || run.cancelled {
+        return;
+    }
+    let mut g = sh.dump.lock().unwrap();
+    if g.len() >= DUMP_CAP {
+        return;
+    }
+    let clause = verdict.first().map(|(k, _)| k.clone());
+    g.push(
+        json!({
+            "writer": kind.name(), "max": m, "ctx": ctx, "payload_hex": hex(payload), "stream_hex": hex(&run.rec),
+            "write_error": run.write_err.as_ref().map(|e| e.2.clone()), "finish_error": run.finish_err,
+            "rust_verdict": clause,
+        })
+        .to_string(),
+    );
 }
 
 /// Run one writer case and return its violations.
@@ -1370,6 +1394,9 @@ fn leg_random(cfg: &Cfg, sh: &Shared) -> Local {
             l.class(format!("rand|M{}|{}", m, cls));
             // always-ready executions
             let (sb, v) = exec_case(Kind::Sync, &payload, &chunks, m, ctx, &Script::all(), None, false);
+            if idx % 2 == 0 {
+                dump_for_python(sh, Kind::Sync, &sb, &payload, m, ctx, &v);
+            }
             l.eval();
             let sync_ok = v.is_empty();
             report_case(l, sh, Kind::Sync, v, &chunks, m, ctx, &Script::all(), false, &replay);
@@ -1398,6 +1425,9 @@ fn leg_random(cfg: &Cfg, sh: &Shared) -> Local {
             }
             if async_ok {
                 let (run, v) = exec_case(Kind::Async, &payload, &chunks, m, ctx, &script, Some(&ab.rec), false);
+                if idx % 2 == 1 {
+                    dump_for_python(sh, Kind::Async, &run, &payload, m, ctx, &v);
+                }
                 l.eval();
                 l.count("random_async_scripted", 1);
                 if run.stuck {
@@ -1511,6 +1541,11 @@ fn leg_canonical(cfg: &Cfg, sh: &Shared) -> Local {
             vec![3 * cap + 2],
         ];
         for (si, chunks) in shapes.iter().enumerate() {
+            if let Some(c) = cfg.only_case {
+                if c != (mi * 100 + si) as u64 {
+                    continue;
+                }
+            }
             let total: usize = chunks.iter().sum();
             let payload = pattern(total, 0x11);
             let replay = json!({"seed": cfg.seed, "stream": 0, "leg": "canonical", "case": mi * 100 + si, "payload_len": total});
@@ -1521,7 +1556,8 @@ fn leg_canonical(cfg: &Cfg, sh: &Shared) -> Local {
                     Kind::Sync => None,
                 };
                 for script in [Script::all(), Script::cyclic(vec![Step::Half, Step::NotReady]), Script::new(vec![Step::One, Step::NotReady, Step::One, Step::NotReady])] {
-                    let (_run, v) = exec_case(kind, &payload, chunks, m, 1, &script, base.as_deref(), false);
+                    let (run, v) = exec_case(kind, &payload, chunks, m, 1, &script, base.as_deref(), false);
+                    dump_for_python(sh, kind, &run, &payload, m, 1, &v);
                     l.eval();
                     l.count("canonical_cases", 1);
                     report_case(&mut l, sh, kind, v, chunks, m, 1, &script, false, &replay);
@@ -1535,12 +1571,13 @@ fn leg_canonical(cfg: &Cfg, sh: &Shared) -> Local {
 pub fn run(cfg: &Cfg) -> Outcome {
     let sh = Shared {
         writing_states: Mutex::new(BTreeSet::new()),
+        dump: Mutex::new(Vec::new()),
     };
     let leg = cfg.opt("--leg");
     let want = |name: &str| leg.as_deref().map(|l| l == name).unwrap_or(true);
     let mut total = Local::new();
     let mut exhaustive_done = false;
-    if want("canonical") && cfg.only_case.is_none() {
+    if want("canonical") && (cfg.only_case.is_none() || leg.is_some()) {
         total.merge(leg_canonical(cfg, &sh));
     }
     if want("exhaustive") {
@@ -1553,6 +1590,15 @@ pub fn run(cfg: &Cfg) -> Outcome {
     }
     if want("reader") {
         total.merge(leg_reader(cfg));
+    }
+    {
+        let d = sh.dump.lock().unwrap();
+        if !d.is_empty() && cfg.only_case.is_none() {
+            let path = format!("{}/streams.jsonl", cfg.out);
+            if std::fs::write(&path, d.join("\n") + "\n").is_ok() {
+                total.count("streams_written_for_python_oracle", d.len() as u64);
+            }
+        }
     }
     let ws = sh.writing_states.lock().unwrap();
     total.count("distinct_writing_states_reached", ws.len() as u64);
